@@ -159,6 +159,16 @@ func TestC07(t *testing.T) {
 					e.A[k] = xast.Path(true, xast.S("child", xast.Name("", "r")))
 				}
 			}
+			if len(e.A) == 2 && len(rs) > 0 && rapid.Bool().Draw(t, "relatedU") {
+				// the second argument is a piece of the string itself (a prefix half of the time), so that
+				// it spans the cuts
+				from := 0
+				if rapid.Bool().Draw(t, "uInside") {
+					from = rapid.IntRange(0, len(rs)-1).Draw(t, "uFrom")
+				}
+				c.Vars[1].Str = string(rs[from:rapid.IntRange(from, len(rs)).Draw(t, "uTo")])
+				st.Class("second argument is a piece of the mixed-content string")
+			}
 			st.Class("string-value of mixed content as argument")
 		}
 		c.Expr = e
